@@ -127,7 +127,9 @@ def programs(seed, n, syms=gen.SYMS, kinds=("abelian", "fermionic"), tids=None, 
         # linear system with square invertible blocks
         A = matrix(rng, sym, kind, pattern="monomial_square", full=True, dtype="float64", start=2)
         inputs["A"] = A
-        x0 = gen.rand_array(rng, sym, 1, kind, ixs=[gen.conj_index(A["ix"][1])], dtype="float64", sparse=0.3,
+        # (a real matrix with a complex right-hand side as well: the solution takes the element type of both)
+        x0 = gen.rand_array(rng, sym, 1, kind, ixs=[gen.conj_index(A["ix"][1])],
+                            dtype="complex128" if rng.random() < 0.4 else "float64", sparse=0.3,
                             phases=0.4 if kind == "fermionic" else 0.0, oddpos=rng.randint(11, 19), start=1)
         inputs["x0"] = x0
         solve_steps(rng, steps, kind)
